@@ -727,6 +727,10 @@ def unknown_well(ctx, rule: str = "C08.unknown-well") -> None:
     ctx.reuse(rule, c13.selection_array)
     from .common import class_state_rule
 
+    # every well number the numbering functions can produce is accepted by the record emitters
+    from . import c09
+
+    ctx.reuse("C08.unknown-well", c09.accepts_valid)
     ctx.guard("C08.instance-state", class_state_rule, "C08.instance-state", ("Labware", "Trough"), "its wells / indices / positions tables")
     for kind in ("add", "remove"):
         f = ctx.prog.require_func(f"Labware.{kind}", rule)
